@@ -665,6 +665,9 @@ pub struct Steered {
     pub trial: Trial,
     pub target_class: Option<Target>,
     pub ea: Option<u64>,
+    /// the trial cannot be judged (e.g. an indirect-branch slot that overlaps the instruction's own bytes would
+    /// hold a non-canonical target, where Intel faults on the branch and AMD on the fetch)
+    pub invalid: bool,
 }
 
 fn mem_access_size(ins: &Instruction) -> u64 {
@@ -731,6 +734,7 @@ pub fn steer(rng: &mut Rng, ins: &Instruction, bytes: &[u8], rip: u64, so: &Stee
     let mut t = Trial { code: bytes.to_vec(), rip, gpr, flags, xmm, fs: 0, gs: 0, patches: vec![] };
     let mut target_class = None;
     let mut ea = None;
+    let mut invalid = false;
 
     if matches!(m, Mnemonic::Shl | Mnemonic::Shr) {
         t.gpr[1] = (rng.next() << 8) | rng.below(256);
@@ -888,6 +892,10 @@ pub fn steer(rng: &mut Rng, ins: &Instruction, bytes: &[u8], rip: u64, so: &Stee
         if matches!(m, Mnemonic::Jmp | Mnemonic::Call) && region_of(a_final).is_some() {
             let tgt = canonical_target(rng);
             t.patches.push((a_final, tgt.to_le_bytes().to_vec()));
+            // ... which it cannot if the instruction's own bytes are written over it
+            if a_final < rip + 16 && a_final + 8 > rip {
+                invalid = true;
+            }
         }
     } else if matches!(m, Mnemonic::Jmp | Mnemonic::Call) && ins.op_count() == 1 && ins.op0_kind() == OpKind::Register {
         let r = ins.op0_register();
@@ -916,7 +924,7 @@ pub fn steer(rng: &mut Rng, ins: &Instruction, bytes: &[u8], rip: u64, so: &Stee
     if matches!(m, Mnemonic::Div | Mnemonic::Idiv) {
         steer_div(rng, ins, &mut t, ea);
     }
-    Steered { trial: t, target_class, ea }
+    Steered { trial: t, target_class, ea, invalid }
 }
 
 /// Dividends built around the quotient-overflow boundary.
